@@ -157,6 +157,27 @@ Print Assumptions C01_read_loop_first.
 
 (* the echo: with white space only in front of it, _read_until_input consumes the echo through the
    input's last non-blank character; only white space of the input's tail can stay unread *)
+(* a read in which no escape character arrives returns the transport's bytes verbatim (minus CR), for EVERY configuration -
+   whatever the ANSI stripping function would do to them (the 8-bit codes 0x9b / 0x9d the ANSI pattern also starts at are
+   ordinary UTF-8 continuation bytes): the strip is guarded by "ESC in what was read" *)
+Theorem C01_read_without_esc_verbatim :
+  forall (c : cfg) (e : env) (w : world),
+    w_pending w <> [] -> ~ In 27 (w_pending w) -> w_partial w = [] ->
+    ch_read c e w =
+    Ok (rm13 (firstn (take e w) (w_pending w)),
+        mkW (skipn (take e w) (w_pending w)) (w_delivered w + take e w) (S (w_reads w)) [] (w_dev w) (w_written w)).
+Proof. exact ch_read_plain. Qed.
+Print Assumptions C01_read_without_esc_verbatim.
+
+(* premises satisfiable, and the guard is what makes it true: "ВЛАН 7" + LF (Cyrillic El = d0 9b) is read verbatim by
+   the configuration of the tree although its ANSI pattern, applied to the same bytes, removes "9b 20 37" *)
+Example C01_read_without_esc_example :
+  let line := [208;146;208;155;208;144;208;157;32;55;10] in
+  let c := re_cfg gen_pat_generic gen_ansi gen_ansi_partial gen_hold_scan gen_depth gen_ret in
+  (match ch_read c probe_env (world0 line 0) with Ok (b, _) => beq b line | _ => false end
+   && negb (beq (c_strip c line) line)) = true.
+Proof. vm_compute. reflexivity. Qed.
+
 Theorem C01_echo_consumed :
   forall (c : cfg) (e : env) (w : world) (cmd r0 : bytes),
     w_pending w = r0 ++ cmd -> w_partial w = [] ->
@@ -198,6 +219,30 @@ Theorem C01_generated_process_output :
           gen_po_probes = true.
 Proof. vm_compute. reflexivity. Qed.
 Print Assumptions C01_generated_process_output.
+
+(* Channel.read / AsyncChannel.read themselves, one transport chunk at a time (observed on the real read() of a constructed
+   driver when Gen_Channel.v was generated): the model's [ch_read] returns the same bytes and carries over the same partial
+   escape sequence on every probe.  Half of the probes contain NO escape character but UTF-8 characters that end in the
+   bytes 0x9b / 0x9d followed by everything the ANSI pattern could consume after them (7 8 M E, "[" .. final byte,
+   "]" digit .. BEL, with and without white space in between): they are handed on verbatim - the ANSI pattern is applied
+   only to a read that contains ESC, which is the guard the history theorem rests on (C01_read_without_esc_verbatim). *)
+Theorem C01_generated_read :
+  forallb (fun x : bytes * bytes * bytes * bytes =>
+             let '(partial, chunk, out, held) := x in
+             read_probe_ok (re_cfg gen_pat_generic gen_ansi gen_ansi_partial gen_hold_scan gen_depth gen_ret) partial chunk out held)
+          gen_read_probes = true.
+Proof. vm_compute. reflexivity. Qed.
+Print Assumptions C01_generated_read.
+
+(* the probes do contain reads without ESC on which the ANSI pattern of the tree, applied unconditionally, would remove
+   bytes (so the obligation above does depend on the guard) *)
+Theorem C01_generated_read_guard_exercised :
+  existsb (fun x : bytes * bytes * bytes * bytes =>
+             let '(partial, chunk, out, held) := x in
+             negb (mem 27 (partial ++ chunk)) && negb (beq (sub_all gen_ansi out) out))
+          gen_read_probes = true.
+Proof. vm_compute. reflexivity. Qed.
+Print Assumptions C01_generated_read_guard_exercised.
 
 Theorem C01_generated_expected_response_patterns :
   (gen_xpat_empty_is_class, gen_xpat_anchored_is_regex_MI, gen_xpat_other_is_literal) = (true, true, true).
